@@ -477,6 +477,15 @@ func runFaulted(c *eng.Ctx, idx int, s *Spec, m *Model, ops []Op, fault rt.Fault
 	if r.Built && !r.Poisoned && !r.Scopes[0].Closed {
 		r.Finish()
 	}
+	// no later container operation may panic either (e.g. a Close that disposes what the failed
+	// or nil-returning constructor left behind)
+	for i := range r.Results {
+		res := &r.Results[i]
+		if res.Class == "PANIC" && !excused[res.Op] && res.Op != 0 {
+			fs = append(fs, Finding{"api-call-panics", feat + ":later-" + opKindName(r.Ops[res.Op]), fmt.Sprintf("after %s#%d was made to %s, op%d %s panicked: %v", meta.Name, fault.Nth, kindName, res.Op, r.Ops[res.Op].String(), res.Panic)})
+			break
+		}
+	}
 	o := Digest(r)
 	// wiring of everything that did succeed, incl. the retry; the failed op itself is excused
 	// (a constructor that returned nil is only required not to panic the container)
@@ -580,3 +589,25 @@ var (
 	C03Concurrent func(c *eng.Ctx, next func() (int, bool))
 	C15Concurrent func(c *eng.Ctx, next func() (int, bool))
 )
+
+// opKindName names the API entry point of an op (for signatures).
+func opKindName(op Op) string {
+	switch op.Kind {
+	case OpBuild:
+		return "Build"
+	case OpCreate:
+		return "CreateScope"
+	case OpGetGroup:
+		return "GetGroup"
+	case OpClose:
+		return "scope.Close"
+	case OpCloseProvider:
+		return "provider.Close"
+	case OpCancel:
+		return "cancel"
+	}
+	if op.Key != "" {
+		return "GetKeyed"
+	}
+	return "Get"
+}
